@@ -206,10 +206,48 @@ def start_point_is_a_snapshot(ctx, rep):
     return n
 
 
+def seed_reported_is_the_seed_used(ctx, rep):
+    """`result.random_seed` agrees with the problem as it was RUN: the seed set on the instance's options before optimize() (given at
+    construction, set or replaced afterwards, or removed) is the one the run applies to the generator and the one the result reports."""
+    from pybads import BADS
+    import numpy as np
+    rng = ctx.sub_rng("c19seed2")
+    n = 0
+    for at_construction, later in ((None, 11), (5, 11), (5, "remove"), (7, 7), (None, 0)):
+        D = rng.choice([1, 2])
+        opts = {"display": "off", "max_fun_evals": D + 12}
+        if at_construction is not None:
+            opts["random_seed"] = at_construction
+        b = BADS(lambda x: float(np.sum(np.asarray(x) ** 2)), np.full(D, 0.3), np.full(D, -4.0), np.full(D, 6.0), np.full(D, -2.0), np.full(D, 3.0), options=opts)
+        if later == "remove":
+            b.options["random_seed"] = None
+        else:
+            b.options["random_seed"] = later
+        want = None if later == "remove" else later
+        applied = []
+        o_seed = np.random.seed
+        def spy(*a, **k):
+            applied.append(a[0] if a else None)
+            return o_seed(*a, **k)
+        np.random.seed = spy
+        try:
+            res = b.optimize()
+        finally:
+            np.random.seed = o_seed
+        n += 1
+        case = {"kind": "seed_report", "D": D, "at_construction": at_construction, "later": later}
+        got = res["random_seed"]
+        if got != want:
+            rep.violation("result_random_seed", "bads.py:_init_optimization_ / optimize_result.py", f"result.random_seed = {got!r} for a run whose options['random_seed'] was {want!r} when optimize() was "
+                          f"called (seed at construction: {at_construction!r}; the run applied seed {applied[:1]} to the generator)", case)
+    return n
+
+
 def run(ctx):
     rep = Report()
     cstats = container_level(ctx, rep)
     cstats["x0_snapshots"] = start_point_is_a_snapshot(ctx, rep)
+    cstats["seed_reports"] = seed_reported_is_the_seed_used(ctx, rep)
     runlevel.with_extra(ctx, "c19he", lambda: he_repeat_specs(ctx))
     runlevel.with_extra(ctx, "c19sto", lambda: stobads_specs(ctx))
     runlevel.with_extra(ctx, "c19seed", lambda: edge_seed_specs(ctx))
@@ -235,6 +273,12 @@ def replay(ctx, data):
     c = data["case"]
     if c.get("kind") in ("container", "result_container"):
         container_level(ctx, rep)
+        return rep
+    if c.get("kind") == "x0_snapshot":
+        start_point_is_a_snapshot(ctx, rep)
+        return rep
+    if c.get("kind") == "seed_report":
+        seed_reported_is_the_seed_used(ctx, rep)
         return rep
     from .. import tracer
     ctx._pool = [tracer.run_traced(c["spec"])]
